@@ -173,6 +173,7 @@ func runSum(c *eng.Ctx, cf cfg, op string, exhaustive bool, budget int) {
 	}
 
 	for _, p := range pairs {
+		api := api
 		b, n := p.b, p.n
 		l := b * n
 		offset := b
@@ -275,6 +276,11 @@ func runSum(c *eng.Ctx, cf cfg, op string, exhaustive bool, budget int) {
 			continue
 		}
 		c.Count("sums_"+op, 1)
+		if n == 1 && !tv.ct.IsNTT {
+			api += "|n=1,coefficient-domain-input"
+		} else if op == "InnerFunction" && !tv.ct.IsNTT {
+			api += "|coefficient-domain-input"
+		}
 		if !isPow2(n) {
 			c.Count("sums_n_not_power_of_two", 1)
 		}
@@ -300,8 +306,18 @@ func runSum(c *eng.Ctx, cf cfg, op string, exhaustive bool, budget int) {
 				}
 				return autSum(typ, r, sc, gs)
 			}, eops, what)
+		case "InnerFunction":
+			if n == 1 {
+				// groups of one sub-vector: every slot is documented, the output is the input
+				e.checkPhase(c, api, tv.ct, out, want, autModel(typ, 1), 1, what)
+				break
+			}
+			fallthrough
 		default:
-			c.Check(out.Level() == want, "C11|"+api+"|wrong-level", func() string { return fmt.Sprintf("%s: level %d", what(), out.Level()) })
+			c.Check(out.Level() <= lin, "C11|"+api+"|output-level-above-input", func() string { return fmt.Sprintf("%s: level %d", what(), out.Level()) })
+			c.Check(out.MetaData != nil && out.MetaData.Equal(tv.ct.MetaData), "C11|"+api+"|metadata-not-carried", func() string {
+				return fmt.Sprintf("%s: in=%+v out=%+v", what(), tv.ct.MetaData, out.MetaData)
+			})
 		}
 		// ---- slot-domain oracle
 		tol := e.slotTol(eops, n)
@@ -347,6 +363,38 @@ func runSum(c *eng.Ctx, cf cfg, op string, exhaustive bool, budget int) {
 				}
 				e.checkSlots(c, api+"|replicated", out, nil, rep, nil, 0, what)
 			}
+		}
+	}
+}
+
+// runSumNoP: the slot sums on a parameter set without auxiliary modulus (P is optional in
+// rlwe.Parameters and none of these functions documents that it needs one).
+func runSumNoP(c *eng.Ctx, cf cfg) {
+	e, err := cf.build()
+	if err != nil {
+		c.Violate("C11|NewParameters|error-on-admissible", err.Error(), cf)
+		return
+	}
+	rnd := c.Rand()
+	maxL := len(cf.Q) - 1
+	c.Sample(map[string]any{"kind": "sum-without-P", "cfg": cf})
+	for _, p := range []pair{{1, 2}, {1, 3}, {2, 4}} {
+		p := p
+		tv, err := e.fresh(rnd, maxL, e.rp.LogN()-1, 0, 0)
+		if err != nil {
+			c.Violate("C11|setup|error", err.Error(), cf)
+			return
+		}
+		ev := e.newEval(rlwe.GaloisElementsForInnerSum(e.rp, p.b, p.n))
+		out := e.newCt(maxL)
+		var rerr error
+		c.Distinct(fmt.Sprintf("sum-noP/%s/%d/%d", cf.tag(), p.b, p.n), true)
+		c.Eval(1)
+		eops := float64(2*p.n+2) * e.ks(maxL)
+		if c.Try("C11|rlwe.Evaluator.PartialTracesSum|no-auxiliary-modulus", func() { rerr = ev.rl.PartialTracesSum(tv.ct, p.b, p.n, out) }) && rerr == nil {
+			e.checkPhase(c, "rlwe.Evaluator.PartialTracesSum|no-auxiliary-modulus", tv.ct, out, maxL, autModel(cf.Ring, rotGals(e.nth, p.b, p.n)...), eops, func() string {
+				return fmt.Sprintf("%s PartialTracesSum(%d,%d)", cf.tag(), p.b, p.n)
+			})
 		}
 	}
 }
